@@ -48,7 +48,7 @@ def _case(draw, unit):
         return [draw(st.booleans()) for _ in range(J)]
     case = {'direction': direction, 'biort': b, 'qshift': q, 'J': J,
             'size': [draw(st.integers(2, 14)), draw(st.integers(2, 14))],
-            'o_dim': o, 'ri_dim': ri, 'mode': draw(st.sampled_from(['symmetric', 'symmetric', 'zero'])),
+            'o_dim': o, 'ri_dim': ri, 'mode': draw(st.sampled_from(['symmetric', 'symmetric', 'symmetric', 'zero', 'zero', 'reflect', 'replicate', 'periodic', 'constant'])),   # every mode name the constructors accept
             'reused': draw(st.integers(0, 2)) == 0, 'overwrite': draw(st.integers(0, 3)) == 0,
             'rx': draw(core.recipe_strategy()), 'rg': draw(core.recipe_strategy(kinds=core.RECIPE_KINDS + ['contrast'])),
             'k': draw(st.integers(0, 10**6))}
